@@ -55,6 +55,7 @@ def summarise(source, filename):
     from supp.nast import extract_scope
     from supp.util import Source, get_name_usages, np
     from supp.name import MultiName, UndefinedName, RuntimeName
+    from supp import assistant
     project = Project(['/nonexistent-verif-root'])
     tree = astpos.parse(source)
     loads = [n for n in ast.walk(tree) if isinstance(n, ast.Name) and isinstance(n.ctx, ast.Load)]
@@ -70,7 +71,7 @@ def summarise(source, filename):
     extract_scope(src, project)
     nodes = {np(n): n for n in get_name_usages(src.tree)}
     reads = []
-    for n in loads:
+    for read_i, n in enumerate(loads):
         sn_node = nodes.get((n.lineno, n.col_offset))
         fl = getattr(sn_node, 'flow', None)
         if fl is None:
@@ -85,7 +86,15 @@ def summarise(source, filename):
             undef = any(type(a) is UndefinedName for a in al)
             alts = sorted((-1 if isinstance(a, RuntimeName) else btab.get(tuple(getattr(a, 'declared_at', (0, 0))), -2))
                           for a in al if type(a) is not UndefinedName)
-        reads.append(json.dumps([n.id, vis, alts, undef]))
+        av = None
+        if len(loads) <= 6 or read_i % max(1, len(loads) // 6) == 0:
+            # what completion offers with the cursor immediately before the identifier (a sample of the reads): the public answer to
+            # "which names are visible here", which also depends on how the cursor line is read
+            try:
+                av = sorted(assistant.assist(project, source, (n.lineno, n.col_offset), filename)[1])
+            except SyntaxError:
+                av = 'SyntaxError'
+        reads.append(json.dumps([n.id, vis, alts, undef, av]))
     return {'diag': json.dumps(dsum), 'reads': reads}
 
 
